@@ -65,6 +65,20 @@ def operation(draw, cell):
 
 
 @st.composite
+def operations(draw, cell, max_ops):
+    """Either a free list of operations, or (two times out of three) a list built around
+    the interesting core: some result, a grid change, some result again."""
+    op = operation(cell)
+    if not draw(st.sampled_from([True, True, False])):
+        return draw(st.lists(op, min_size=2, max_size=max_ops))
+    result = op.filter(lambda o: o["op"] in ("build", "project", "multislice"))
+    regrid = op.filter(lambda o: o["op"] in ("set_gpts", "set_sampling") or (o["op"] == "multislice" and o["gpts"] is not None))
+    head = draw(st.lists(op, max_size=2))
+    tail = draw(st.lists(op, max_size=max(0, max_ops - 5)))
+    return head + [draw(result), draw(regrid), draw(result)] + tail
+
+
+@st.composite
 def history_case(draw, max_ops=8):
     a = round(draw(gen.floats(3.0, 8.0)), 3)
     b = round(draw(gen.floats(3.0, 8.0)), 3)
@@ -82,7 +96,7 @@ def history_case(draw, max_ops=8):
         "projections": draw(st.sampled_from([["infinite"], ["infinite"], ["finite"], ["infinite", "finite"]])),
         "parametrization": draw(st.sampled_from(["lobato", "kirkland", "peng"])),
         "initial": draw(grid_arg(cell)),
-        "ops": draw(st.lists(operation(cell), min_size=2, max_size=max_ops)),
+        "ops": draw(operations(cell, max_ops)),
     }
 
 
@@ -128,8 +142,8 @@ def _compare(name, step, op, projection, got, ref, rtol, case, changed):
     "C11",
     "reuse_history",
     history_case,
-    quick=220,
-    thorough=4000,
+    quick=260,
+    thorough=8000,
     tol="ulp32: potentials 2e-5*max|ref| (observed 0), exit waves 2e-4*max|ref|; grids exact / 1e-12",
     rule="history contains result -> actual grid change -> result",
     nontrivial_floor=0.3,
